@@ -5,9 +5,10 @@ use std::cell::Cell;
 
 pub struct Counting;
 
-/// A single allocation request of this size (1 TiB) cannot succeed on any machine the checks run on: the process
-/// would be aborted (`handle_alloc_error`), which no oracle could report. The thread's "last words" are run instead.
-pub const ABSURD_REQUEST: usize = 1 << 40;
+/// A single allocation request of this size (64 GiB, more than the machine has; the largest legitimate request of the
+/// harness and of the readers under the guarded policies is a few GiB) would abort the process
+/// (`handle_alloc_error`), which no oracle could report. The thread's "last words" are run instead.
+pub const ABSURD_REQUEST: usize = 1 << 36;
 
 thread_local! {
     /// What to do when the code under test asks for an absurd amount of memory on this thread: the engine installs a
